@@ -317,9 +317,25 @@ def apply_gate_cases(ctx, quick, n_cases=None, seeds=None):
                 continue
             psi = fpeps.product_peps(geometry, choices)
             phi = mps.product_mps([choices[s] for s in sites])
-        ngates = rng.randint(1, 4)
+        ngates = rng.randint(1, 4) if N < 6 else rng.randint(3, 7)      # the largest lattices need several gates before every bond is entangled
         glist = []
         ok = True
+        # on the largest lattices, sometimes: a hopping-like gate on EVERY nearest-neighbour bond (random order), so that every bond carries odd sectors
+        cover = N >= 6 and rng.random() < 0.4
+        if cover:
+            up, dn_ = {'SpinlessFermions': ('cp', 'c'), 'SpinfulFermions': ('cpu', 'cu'), 'Spin12': ('sp', 'sm')}[fam]
+            bonds_ = list(geometry.bonds())
+            rng.shuffle(bonds_)
+            for (s0_, s1_) in bonds_:
+                amp = complex(rng.uniform(0.3, 1), rng.uniform(-1, 1))
+                try:
+                    Osm = mps.generate_mpo(I, [mps.Hterm(amp, (0, 1), (pool[up], pool[dn_])), mps.Hterm(np.conj(amp), (1, 0), (pool[up], pool[dn_])), mps.Hterm(1.0, (0,), (I,))], N=2)
+                    Obg = mps.generate_mpo(I, [mps.Hterm(amp, (s2i[s0_], s2i[s1_]), (pool[up], pool[dn_])), mps.Hterm(np.conj(amp), (s2i[s1_], s2i[s0_]), (pool[up], pool[dn_])),
+                                               mps.Hterm(1.0, (0,), (I,))], N=N)
+                except Exception:
+                    ok = False; break
+                glist.append(('hop-all-bonds', fpeps.Gate(Osm, (s0_, s1_)), Obg))
+            ngates = rng.randint(0, 2)
         for _ in range(ngates):
             r = rng.random()
             if r < 0.2:
@@ -435,8 +451,25 @@ def double_layer_and_sums(ctx, quick):
             op = yastn.rand(cfg, legs=[lp, lp.conj()], n=tgen.rcharge(rng, sym), dtype='complex128' if cplx else 'float64')
             if op.size:
                 T.set_operator_(op)
-        desc = dict(kind='double-layer', sym=sym, fermionic=ferm, rep=rep)
+        # pending charge swaps (fermionic strings of operators elsewhere) on some of the ten legs
+        if rng.random() < 0.5 and sym != 'dense':
+            ch = tgen.rcharge(rng, sym)
+            T.add_charge_swaps_(ch, axes=rng.sample(['b0', 'b1', 'b2', 'b3', 'b4', 'k0', 'k1', 'k2', 'k3', 'k4'], rng.randint(1, 3)))
+        desc = dict(kind='double-layer', sym=sym, fermionic=ferm, rep=rep, swaps=repr(dict(T.swaps)))
         ctx.case(desc, nontrivial=True)
+        # copies and the conjugate carry everything the tensor carries (operator, swaps, transposition)
+        try:
+            for how in ('copy', 'clone', 'conj'):
+                Tc = getattr(T, how)()
+                want = T.fuse_layers().conj() if how == 'conj' else T.fuse_layers()
+                if (Tc.fuse_layers() - want).norm() > 1e-10 * max(1.0, float(want.norm())):
+                    ctx.violation('DoublePepsTensor.%s().fuse_layers() differs from fuse_layers()%s (%s fermionic=%s swaps=%r operator=%s)' % (
+                        how, '.conj()' if how == 'conj' else '', sym, ferm, dict(T.swaps), T.op is not None), desc)
+                    raise StopIteration
+        except StopIteration:
+            continue
+        except yastn.YastnError:
+            pass
         try:
             f0 = T.fuse_layers()
         except yastn.YastnError:
@@ -454,16 +487,18 @@ def double_layer_and_sums(ctx, quick):
         if t.size == 0:
             continue
         try:
-            a = r1.tensordot(t, axes=(pair, (1, 2)))
-            b = T1.tensordot(t, axes=(pair, (1, 2)))
-            c = yastn.tensordot(t, T1, axes=((1, 2), pair))
-            a2 = yastn.tensordot(t, r1, axes=((1, 2), pair))
+            cj = rng.choice([(0, 0), (0, 0), (1, 0), (0, 1), (1, 1)])       # conj flags of the two operands
+            tt = t.conj() if cj[0] != cj[1] else t                         # legs must still match after conjugating one side
+            a = yastn.tensordot(r1, tt, axes=(pair, (1, 2)), conj=cj)
+            b = yastn.tensordot(T1, tt, axes=(pair, (1, 2)), conj=cj)
+            c = yastn.tensordot(tt, T1, axes=((1, 2), pair), conj=cj[::-1])
+            a2 = yastn.tensordot(tt, r1, axes=((1, 2), pair), conj=cj[::-1])
         except yastn.YastnError as e:
             ctx.count('double-layer:rejected')
             continue
         ctx.count('double-layer:tensordot')
         if (a - b).norm() > 1e-10 * max(1.0, float(a.norm())) or (a2 - c).norm() > 1e-10 * max(1.0, float(a2.norm())):
-            ctx.violation('DoublePepsTensor.tensordot over legs %r differs from the tensordot of its fused form (%s fermionic=%s, operator=%s)' % (pair, sym, ferm, T.op is not None), desc)
+            ctx.violation('DoublePepsTensor.tensordot over legs %r (conj=%r) differs from the tensordot of its fused form (%s fermionic=%s, operator=%s, swaps=%r)' % (pair, cj, sym, ferm, T.op is not None, dict(T.swaps)), desc)
 
 
 def peps_sums(ctx, quick):
